@@ -46,7 +46,7 @@ IMPORTS = ("From Coq Require Import List NArith ZArith Bool.\n"
 ANCHORS = ["../../data/lib/pkgcore/ebd/ebuild-default-functions.bash", "../../data/lib/pkgcore/ebd/ebuild.bash",
            "../../data/lib/pkgcore/ebd/ebuild-daemon-lib.bash",
            "ebuild/ebuild_src.py::package_factory._update_metadata", "ebuild/processor.py::EbuildProcessor.get_keys",
-           "ebuild/processor.py::inherit_handler", "ebuild/eapi.py"]
+           "ebuild/processor.py::inherit_handler", "ebuild/eapi.py"]  # bash files: whole-file hashes
 
 VARS = ["IUSE", "REQUIRED_USE", "DEPEND", "RDEPEND", "PDEPEND", "BDEPEND", "IDEPEND", "PROPERTIES", "RESTRICT",
         "DESCRIPTION", "HOMEPAGE", "KEYWORDS", "LICENSE", "SLOT", "SRC_URI"]
@@ -299,6 +299,17 @@ class Gen:
             eb = self.ops(st, eapi, rng.randint(3, 10), list(range(1, necl + 1)), False, unset_acc)
             c = {"eapi": eapi, "ebuild": eb, "ecl": ecl}
             if tree_size(c) <= 14:
+                r = rng.random()
+                if r < 0.08:    # a value that starts with something echo would take as an option
+                    sp = rng.choice((9001, 9002, 9003, 9004, 9005))
+                    for o in eb:
+                        if o[0] == "A" and o[1] == 0:
+                            o[2].insert(0, sp)
+                            break
+                    else:
+                        eb.insert(0, ("A", 0, [sp, st["t"]]))
+                elif r < 0.12:  # a whole value that is the word `unset`
+                    eb.append(("A", rng.choice((9, 10, 11, 12, 13, 14)), [9006]))
                 return c
             st = {"t": 1}
 
@@ -309,7 +320,15 @@ def tree_size(c):
     return ops(c["ebuild"])
 
 
+# tokens that the emission code must not treat specially: echo options (IUSE="-e foo" is a legal IUSE with
+# a default-off flag named e) and the word the emptiness test of __dump_metadata_keys used as its sentinel
+SPECIAL_TOK = {9001: "-n", 9002: "-e", 9003: "-E", 9004: "-ne", 9005: "-x", 9006: "unset"}
+SPECIAL_REV = {v: k for k, v in SPECIAL_TOK.items()}
+
+
 def tok_text(v, t):
+    if t in SPECIAL_TOK:
+        return SPECIAL_TOK[t]
     return f"cat/t{t}" if v in DEPV else f"t{t}"
 
 
@@ -435,7 +454,7 @@ def canon(md, inherited, inherit, phases, eapi_obj):
         toks = []
         for t in val.split():
             m = re.fullmatch(r"(?:cat/)?t(\d+)", t)
-            toks.append(int(m.group(1)) if m else 10 ** 6)
+            toks.append(int(m.group(1)) if m else SPECIAL_REV.get(t, 10 ** 6))
         if toks:
             keys.append([i, sorted(toks)])
     extra = sorted(k for k in md if k not in VARS and k not in ("DEFINED_PHASES", "INHERIT", "EAPI", "_eclasses_", "_chf_"))
@@ -644,6 +663,9 @@ def fixed_cases():
                 "ebuild": [(I, [1, 2]), (I, [3])]})
     out.append({"eapi": 5, "ecl": {}, "ebuild": [(A, 13, [1]), (F, "helper_fn", False), (F, "src_configure", False)]})
     out.append({"eapi": 1, "ecl": {}, "ebuild": [(A, 13, [1]), (F, "src_configure", False), (F, "pkg_pretend", False)]})
+    # values the emission must pass through untouched (echo options, the word `unset`)
+    out.append({"eapi": 7, "ecl": {1: [(A, 0, [5])]}, "ebuild": [(A, 0, [9002, 1]), (I, [1]), (A, 13, [2])]})
+    out.append({"eapi": 5, "ecl": {}, "ebuild": [(A, 0, [9001, 1]), (A, 9, [9006]), (A, 13, [2]), (A, 11, [3])]})
     # known finding shapes
     out.append({"eapi": 7, "ecl": {1: [(A, 2, [5]), (I, [2])], 2: [(U, 2)]}, "ebuild": [(A, 2, [1]), (I, [1])]})
     out.append({"eapi": 0, "ecl": {1: [(U, 2)], 2: [(A, 0, [9])]}, "ebuild": [(A, 2, [1]), (I, [1, 2])]})
@@ -678,7 +700,7 @@ def main(chk: Check):
         cases.append(g.case(unset_acc=(k % 8 == 7)))
     # quick: the nine per-EAPI "everything once" cases + the two known-finding shapes + a few random ones go
     # through the real daemon (a daemon round trip costs seconds on a loaded machine); thorough: all fixed + 120
-    fixed_d = list(range(nfixed)) if ((chk.thorough or chk.fingerprint_changed) and not env_n) else list(range(9)) + [nfixed - 2, nfixed - 1]
+    fixed_d = list(range(nfixed)) if ((chk.thorough or chk.fingerprint_changed) and not env_n) else list(range(9)) + [nfixed - 4, nfixed - 3, nfixed - 2, nfixed - 1]
     daemon_idx = fixed_d + list(range(nfixed, min(len(cases), nfixed + n_daemon)))
     if env_n and n_daemon == 0:
         daemon_idx = []
@@ -775,19 +797,26 @@ def run(chk, impl, cases, daemon_idx, ok):
                               {"what": "the real daemon and the directly driven bash functions disagree on the same ebuild",
                                "input": describe(cases[i], i), "daemon": daemon[i], "direct": direct[i]}, no_input=True)
 
-    if not ok:
-        return
     # ---- Coq: model (A) and spec (B), one cases stream: daemon results first, then direct results
     evals = ["mismatches run_meta cases", "mismatches spec_meta cases"]
     rows = [("daemon", i, daemon[i]) for i in daemon_idx] + [("direct", i, direct[i]) for i in all_idx]
     shard = 48 if len(rows) <= 600 else 320
-    r = chk.coq_eval("meta", IMPORTS, "N * prog", [(coq_case(cases[i]), res) for _, i, res in rows], evals,
-                     shard=shard, preamble="Open Scope N_scope.")
+    r = None
+    if ok:
+        r = chk.coq_eval("meta", IMPORTS, "N * prog", [(coq_case(cases[i]), res) for _, i, res in rows], evals,
+                         shard=shard, preamble="Open Scope N_scope.")
     chk.note("t_after_coq=%.1f" % (_t.time() - chk.t0))
     a_bad, b_bad = [], []
     if r is not None:
         a_bad = [rows[j] for j in r[0]]
         b_bad = [rows[j] for j in r[1]]
+    # the statement's oracle again, in Python (also works when the Coq development no longer builds)
+    coq_b = {(st, i) for st, i, _ in b_bad}
+    for st, i, res in rows:
+        if (st, i) not in coq_b and bad_keys(cases[i], res, impl):
+            b_bad.append((st, i, res))
+            if r is not None:
+                chk.note(f"python oracle rejects case {i} ({st}) that Spec_C49.spec_meta accepts")
 
     # ---- property failures (B)
     new_failures = 0
